@@ -1,8 +1,8 @@
 """C04 — ANOVA, NICV and SNR results equal their definitions over value classes.
 
-C-tie: the real scared.ANOVADistinguisher / NICVDistinguisher / SNRDistinguisher (update* + compute) and
-ANOVAAttack / NICVAttack / SNRAttack (.results after run(Container)) are driven on small integer inputs; every
-(word, sample) entry of the result is compared, inside Coq (Model/Partitioned.v: part_check), with the SPEC
+C-tie: the real scared.ANOVADistinguisher / NICVDistinguisher / SNRDistinguisher (history update, compute, update,
+compute, ..., compute, compute) and ANOVAAttack / NICVAttack / SNRAttack (.results after run(Container) and after a second
+compute_results()) are driven on small integer inputs; every (word, sample) entry of EVERY returned table is compared, inside Coq (Model/Partitioned.v: part_check), with the SPEC
 (F statistic / NICV / SNR over the groups of samples by class value) and with the impl-model (accumulators + the
 _compute_metric bodies).  A second kind validates the hand-written spec itself against scipy / numpy references.
 """
@@ -212,7 +212,8 @@ class PartKind(Kind):
     check_fn = 'part_check'
     explain_fn = 'part_expected'
     shard = 6
-    rule = ('ANOVA/NICV/SNR Distinguisher (update*, compute) and <X>Attack.results through a Container on integer traces (u8/u16/i16) and '
+    rule = ('ANOVA/NICV/SNR Distinguisher (history update, compute, update, compute, ..., compute, compute: EVERY compute() is compared with the '
+            'statistic of the rows fed so far) and <X>Attack.results through a Container (after run and after a second compute_results()) on integer traces (u8/u16/i16) and '
             'integer data (u8/u16/i16/i32): explicit class lists of 1..12 values (unsorted, gaps, values up to 2^17-1, list/ndarray/range, '
             'duplicates) and automatic class sets (first-batch maxima 0,1,8,9,10,63,64,65,254,255; refused >255 and <0), words that are '
             'unbalanced / constant (K=1) / all distinct (N=K) / sparse / partly or wholly undeclared, samples that are random / constant / '
@@ -326,8 +327,9 @@ class PartKind(Kind):
         parts = 'None' if case['parts'] is None else '(Some %s)' % C.coq_list(case['parts'], C.coq_z)
         if obs.get('refused') == 'ValueError':
             ob = 'None'
-        elif 'results' in obs:
-            ob = '(Some %s)' % C.coq_list(obs['results'], lambda w: C.coq_list(w, core.float_to_coq))
+        elif 'tables' in obs:
+            ob = '(Some %s)' % C.coq_list(obs['tables'], lambda kt: C.coq_pair(C.coq_nat(kt[0]), C.coq_list(
+                kt[1], lambda w: C.coq_list(w, core.float_to_coq))))
         else:
             ob = '(Some [])'          # unexpected exception: never accepted
         return ('{| pc_metric := %s; pc_prec := %s; pc_parts := %s; pc_batches := %s; pc_obs_parts := %s; pc_obs := %s |}' % (
@@ -350,7 +352,7 @@ class PartKind(Kind):
     def nontrivial(self, case, obs):
         if 'results' not in obs:
             return False
-        defined = any(v == v for w in obs['results'] for v in w)
+        defined = any(v == v for _, t in obs['tables'] for w in t for v in w)
         declared = set(obs.get('partitions', []))
         W = len(case['data'][0])
         multi = any(len({r[w] for r in case['data']} & declared) >= 2 for w in range(W))
@@ -363,7 +365,8 @@ class PartKind(Kind):
             P = len(obs['partitions'])
             f['P'] = str(P) if P <= 12 else ('<=64' if P <= 64 else '<=256')
         if 'results' in obs:
-            vals = [v for w in obs['results'] for v in w]
+            vals = [v for _, t in obs['tables'] for w in t for v in w]
+            f['computes'] = len(obs['tables'])
             nn = sum(1 for v in vals if v != v)
             f['nan'] = 'none' if nn == 0 else ('all' if nn == len(vals) else 'some')
         if obs.get('refused'):
@@ -471,7 +474,17 @@ def _run_dist(case):
     if tr.tolist() != case['traces'] or da.tolist() != case['data']:
         raise HarnessError('generated values do not fit the dtypes')
     tr0, da0 = tr.copy(), da.copy()
+    W, S = da.shape[1], tr.shape[1]
     o = 0
+    tables, shapes, dtypes = [], [], []
+
+    def grab(k):
+        r = d.compute()
+        tables.append([k, _flt(r)])
+        shapes.append(list(r.shape))
+        dtypes.append(str(r.dtype))
+
+    # history: update, compute, update, compute, ..., compute, compute  (every compute() must be the statistic so far)
     for i, k in enumerate(case['splits']):
         try:
             d.update(tr[o:o + k], da[o:o + k])
@@ -480,9 +493,12 @@ def _run_dist(case):
                 return {'refused': 'ValueError', 'msg': str(e)[:120], 'partitions': []}
             raise
         o += k
-    r = d.compute()
-    W, S = da.shape[1], tr.shape[1]
-    return {'results': _flt(r), 'shape': list(r.shape), 'expected_shape': [W, S], 'dtype': str(r.dtype),
+        grab(i + 1)
+    grab(len(case['splits']))
+    bad_shape = [sh for sh in shapes if sh != [W, S]]
+    bad_dtype = [dt for dt in dtypes if dt != case['prec']]
+    return {'tables': tables, 'results': tables[-1][1], 'shape': bad_shape[0] if bad_shape else [W, S], 'expected_shape': [W, S],
+            'dtype': bad_dtype[0] if bad_dtype else case['prec'],
             'partitions': [int(v) for v in np.asarray(d.partitions).tolist()],
             'input_modified': not (np.array_equal(tr, tr0) and np.array_equal(da, da0)),
             'processed': int(d.processed_traces)}
@@ -526,7 +542,14 @@ def _run_attack(case):
         _container.set_batch_size(None)
     r = np.asarray(a.results)
     S = tr.shape[1]
-    return {'results': _flt(r.reshape((-1, S))), 'shape': list(r.shape), 'expected_shape': [G, Wd, S], 'dtype': str(r.dtype),
+    nb = len(seen)
+    tables = [[nb, _flt(r.reshape((-1, S)))]]
+    # results computed once more on the same state (public compute_results): must be the same statistic
+    a.compute_results()
+    r2 = np.asarray(a.results)
+    tables.append([nb, _flt(r2.reshape((-1, S)))])
+    return {'tables': tables, 'results': tables[0][1], 'shape': list(r.shape) if list(r.shape) != [G, Wd, S] else list(r2.shape),
+            'expected_shape': [G, Wd, S], 'dtype': str(r.dtype) if str(r.dtype) != case['prec'] else str(r2.dtype),
             'partitions': [int(v) for v in np.asarray(a.partitions).tolist()], 'batch_sizes': seen,
             'processed': int(a.processed_traces)}
 
